@@ -317,7 +317,6 @@ class AccountingRequest(Accounting):
         AvpGenDef("cause", AVP_TGPP_CAUSE, VENDOR_TGPP, type_class=Cause),
 
         AvpGenDef("origin_aaa_protocol", AVP_ORIGIN_AAA_PROTOCOL),
-        AvpGenDef("origin_state_id", AVP_ORIGIN_STATE_ID),
         AvpGenDef("nas_identifier", AVP_NAS_IDENTIFIER),
         AvpGenDef("nas_ip_address", AVP_NAS_IP_ADDRESS),
         AvpGenDef("nas_ipv6_address", AVP_NAS_IPV6_ADDRESS),
